@@ -130,6 +130,16 @@ func runVbs(x *ctx, backing string, f form, orig []byte, co corr, useAlias bool)
 		if servesWrong {
 			panic("harness: inner store serves wrong bytes but validated bytes are right")
 		}
+		x.keep("Get", blk, req, orig, feat)
+		// further reads on the same store: same request again and the codec alias
+		for _, rq := range []cid.Cid{req, alias(req)} {
+			if b2, err := vbs.Get(bg, rq); err == nil && b2 != nil {
+				if !bytes.Equal(b2.RawData(), orig) {
+					return eng.V("wrong-bytes-returned", "Get", fmt.Sprintf("%s: repeated Get(%s) returned %.40q", x.id, rq, b2.RawData()), feat...)
+				}
+				x.keep("Get(repeated)", b2, rq, orig, feat)
+			}
+		}
 		x.outcome("vbs/returned-good")
 		return nil
 	}
